@@ -240,7 +240,7 @@ def flagOf (s : String) : Bool := s.endsWith "=1"
 def stepC03 (f : List String) : String :=
   match f with
   | kind :: ver :: _role :: _feature :: known :: handler :: insw :: write :: outcome :: rest =>
-    if kind != "a" && kind != "b" then "bad-op" else
+    if kind != "a" && kind != "b" && kind != "c" then "bad-op" else
     let cfg : Cfg := { dialect := if ver == "R16" then .v16 else .v2, known := flagOf known, handlerSet := flagOf handler,
                        inSwitch := flagOf insw, writeOk := flagOf write }
     let arg := (rest.headD "").replace "_" " "
